@@ -185,6 +185,8 @@ def run(ctx, res):
             if d != want:
                 res.disagreements.append({'case': {'method': m, 'class': c}, 'model': sx.dumps(d), 'impl': sx.dumps(want), 'relation': 'AriReply.spec_designated/spec_letter = table of the property text'})
     through_server(ctx, res, classes)
+    through_init_and_foreign(ctx, res, classes)
+    concurrent_first_use(ctx, res)
     res.traces = res.evaluations
 
 
@@ -221,6 +223,128 @@ def through_server(ctx, res, classes):
             if bad:
                 res.oracle_violations.append({'case': {'through': 'MetadataProviderServer', 'method': meth, 'class': cls_name, 'lines': msgs}, 'detail': bad,
                                               'key': {'kind': 'error_reply', 'method': meth, 'class': cls_name}})
+
+
+FOREIGN_CLASSES = ['RuntimeError', 'ValueError', 'KeyError', 'TypeError', 'OSError', 'LookupError', 'ArithmeticError', 'AttributeError',
+                   'IndexError', 'StopIteration', 'AssertionError', 'NotImplementedError', 'UnicodeError', 'ZeroDivisionError']
+
+
+def through_init_and_foreign(ctx, res, classes):
+    """the two init methods, and a wider set of unrelated exception classes, through the real servers: whatever is raised
+    (by initialize or by a request handler) comes back as an error reply of that method carrying str(exception); typed only as designated"""
+    import builtins
+    cases = []
+    for cls_name in LIB + FOREIGN_CLASSES:
+        cases.append(('MPI', 'meta', cls_name))
+        cases.append(('DPI', 'data', cls_name))
+    for cls_name in FOREIGN_CLASSES:
+        cases.append(('NUS', 'meta', cls_name))
+        cases.append(('GIS', 'meta', cls_name))
+        cases.append(('SUB', 'data', cls_name))
+    for meth, kind, cls_name in cases:
+        if cls_name in LIB:
+            e = make(cls_name, classes, 'm %s|x' % cls_name, -3, '', 'sid 1')
+        else:
+            e = getattr(builtins, cls_name)('m %s|x' % cls_name)
+
+        def boom(*a, e=e, **k):
+            raise e
+        with fixture.patched() as env:
+            h = fixture.make_handler()
+            if kind == 'meta':
+                script = {'initialize': boom} if meth == 'MPI' else {'notify_user': boom, 'get_items': boom}
+                ad = fixture.metadata_adapter(script)
+                srv = fixture.start_meta(env, ad, handler=h)
+                init = 'q|MPI|S|ARI.version|S|1.8.3\r\n' if meth == 'MPI' else '1|MPI|S|ARI.version|S|1.8.3\r\n'
+            else:
+                script = {'initialize': boom} if meth == 'DPI' else {'subscribe': boom, 'issnapshot_available': lambda i: True}
+                ad = fixture.data_adapter(script)
+                srv = fixture.start_data(env, ad, handler=h)
+                init = 'q|DPI|S|ARI.version|S|1.9.1\r\n' if meth == 'DPI' else '1|DPI|S|ARI.version|S|1.9.1\r\n'
+            fixture.drain(srv)
+            fixture.feed(srv, init)
+            if meth not in ('MPI', 'DPI'):
+                fixture.drain(srv)
+                fixture.feed(srv, {'NUS': 'q|NUS|S|u|S|p', 'GIS': 'q|GIS|S|u|S|g|S|s', 'SUB': 'q|SUB|S|item1'}[meth] + '\r\n')
+            msgs = [m for m in fixture.drain(srv) if isinstance(m, str) and m.startswith('q|')]
+        res.evaluations += 1
+        res.count('server-init-and-foreign')
+        bad = None
+        if len(msgs) != 1:
+            bad = 'expected one reply with id q, got %r' % (msgs,)
+        else:
+            try:
+                bad = check_oracle(meth, cls_name, False, e, msgs[0][2:], None, -3, '', 'sid 1')
+            except (ari.Bad, ValueError) as ex:
+                bad = 'malformed error reply %r: %r' % (msgs[0], ex)
+        if bad:
+            res.oracle_violations.append({'case': {'through': kind + ' server', 'method': meth, 'class': cls_name, 'lines': msgs}, 'detail': bad,
+                                          'key': {'kind': 'error_reply', 'method': meth, 'class': cls_name}})
+
+
+def _first_use_child(arg):
+    """(child process) concurrent FIRST uses of the error-reply machinery after the library's module state has been reset:
+    anything initialised lazily must not be observable half-built"""
+    import importlib
+    import logging
+    import random
+    import dsched
+    logging.disable(logging.CRITICAL)
+    seed, n = arg
+    import lightstreamer_adapter.protocol as protocol
+    import lightstreamer_adapter.metadata_protocol as mp
+    import lightstreamer_adapter.data_protocol as dp
+    classes = lib_classes()
+    out = []
+    nstuck = 0
+    for i in range(n):
+        importlib.reload(protocol)              # module-level state back to what it is in a fresh process
+        M = mp.Method
+        jobs = [('NUS/AccessError', lambda: mp.write_notiy_user(M.NUS, exception=classes['AccessError']('a'))),
+                ('NNS/ConflictingSessionError', lambda: mp.write_notify_new_session(classes['ConflictingSessionError'](-3, 'conflict', 'S|1', None))),
+                ('NUS/CreditsError', lambda: mp.write_notiy_user(M.NUS, exception=classes['CreditsError'](7, 'no credits', 'um'))),
+                ('SUB/SubscribeError', lambda: dp.write_sub(classes['SubscribeError']('s'))),
+                ('GIS/ItemsError', lambda: mp.write_get_items(exception=classes['ItemsError']('i')))]
+        rng = random.Random(seed * 7919 + i)
+        rng.shuffle(jobs)
+        jobs = jobs[:rng.choice([2, 3])]
+        S = dsched.Sched(fine=('lightstreamer_adapter/protocol.py', 'lightstreamer_adapter/metadata_protocol.py',
+                               'lightstreamer_adapter/data_protocol.py'), fine_seed=i, fine_p=0.5)
+        got = {}
+        for name, fn in jobs:
+            def body(name=name, fn=fn):
+                try:
+                    got[name] = fn()
+                except Exception as ex:
+                    got[name] = 'raised ' + repr(ex)
+            S.spawn(name, 'free', body)
+        S.step_timeout = 1.5
+        status = S.run(dsched.RandomChooser(rng), max_steps=20000)
+        S.kill_all()
+        if status == 'stuck':
+            nstuck += 1                          # a real lock of the library is held by a parked thread: this schedule cannot be continued
+            if nstuck > 12:
+                break
+            continue
+        for name, fn in jobs:
+            want = fn()                          # a lone, later caller
+            if got.get(name) != want:
+                out.append({'round': i, 'threads': [j[0] for j in jobs], 'who': name, 'got': got.get(name), 'lone_caller': want})
+                break
+    return out
+
+
+def concurrent_first_use(ctx, res):
+    import multiprocessing
+    n = 60 if ctx.tier == 'quick' else 2000
+    with multiprocessing.get_context('fork').Pool(1) as pool:
+        bad = pool.apply(_first_use_child, ((ctx.seed, n),))
+    res.evaluations += n
+    res.count('concurrent-first-use', n)
+    for b in bad[:3]:
+        res.oracle_violations.append({'case': {'threads': b['threads'], 'round': b['round'], 'seed': ctx.seed},
+                                      'detail': 'first error replies built concurrently in a fresh process: %s got %r, a lone caller gets %r' % (b['who'], b['got'], b['lone_caller']),
+                                      'key': {'kind': 'concurrent_first_use'}})
 
 
 def search(ctx, res):
